@@ -146,9 +146,32 @@ def gen_trial(meta, rng, nthreads, maxops=7, tiny=False):
             ops = threads[tb]
             ops.insert(rng.randint(0, len(ops)), ('rmexp', 15))
             shared_w[1] = False
+    # a mock destroyed by one thread while other threads release (not call) expectations that were placed on it,
+    # one of them saturated: the expectation objects are not the mock, so both are legal concurrently
+    shared_m = None
+    if rng.random() < (0.6 if tiny else 0.4):
+        pre.append(('obj', 6, 'M'))
+        hi16 = rng.choice([1, 1, 2])
+        pre.append(exp(16, 'f_rt', 6, slot=2, mask=4, lo=1, hi=hi16, val=0))
+        pre.append(exp(17, 'f_rt', 6, slot=3, mask=8, lo=rng.choice([0, 1]), hi=INF, val=0))
+        if rng.random() < 0.7:
+            pre.append(('call', 6, 'f', 2))       # 16 handles it (and is saturated if hi16 == 1)
+        shared_m = {'obj': True, 16: True, 17: True}
+        for what, opx in ((('obj', ('rmobj', 6))), ((16, ('rmexp', 16))), ((17, ('rmexp', 17)))):
+            if rng.random() < 0.85:
+                ops = threads[rng.randrange(nthreads)]
+                ops.insert(rng.randint(0, len(ops)), opx)
+                shared_m[what] = False
     post = []
     for e in leftovers_exp + longlived:
         post.append(('qexp', e))
+    if shared_m:
+        for e in (16, 17):
+            if shared_m[e]:
+                post.append(('qexp', e))
+                post.append(('rmexp', e))
+        if shared_m['obj']:
+            post.append(('rmobj', 6))
     if shared_w:
         if shared_w[1]:
             post.append(('qexp', 15))
@@ -694,7 +717,7 @@ def run_systematic(seed, tier):
 
 
 # ---- C17: calls made on other threads while a tracer is alive are traced too ----------------------------------
-def traced_calls(v, seed, tier):
+def traced_calls(v, seed, tier, what='trace'):
     """Tracer installed before the threads start, removed after they joined (documented obligation);
     every accepted call of every thread must deliver exactly one record to it. Returns #calls checked."""
     try:
@@ -708,8 +731,9 @@ def traced_calls(v, seed, tier):
     trials = []
     for _ in range(n):
         t = sanitize_trial(meta, gen_trial(meta, rng, rng.choice([2, 3, 4]), maxops=6))
-        t.pre.append(('tr', 900, 0))
-        t.post.insert(0, ('rmtr', 900))
+        if what == 'trace':
+            t.pre.append(('tr', 900, 0))
+            t.post.insert(0, ('rmtr', 900))
         trials.append(t)
     logdir = tempfile.mkdtemp(prefix='tsanlog-', dir=os.path.join(VERIF, 'out'))
     checked = 0
@@ -737,6 +761,16 @@ def traced_calls(v, seed, tier):
                         checked += 1
                         hid = ob.outcome[1] if ob.outcome[0] == 'ret' else (ob.outcome[2] if ob.outcome[0] == 'exc' and len(ob.outcome) > 2 else None)
                         bad = None
+                        if what == 'ok':
+                            # the OK reporter was installed on the main thread before the workers started
+                            if len(ob.ok) != 1:
+                                bad = 'accepted call on thread %d delivered %d OK reports' % (ti, len(ob.ok))
+                            elif hid in sites and ob.ok[0][1] != sites[hid][2]:
+                                bad = 'OK report text %r, handler text %r' % (ob.ok[0][1], sites[hid][2])
+                            if bad:
+                                v.violation('ok|threads', 'OK reporter installed before threads start: %s (operation %s)' % (bad, model.op_to_line(op)),
+                                            dict(engine='thr', trial=trial_text(0, t)))
+                            continue
                         if len(ob.trace) != 1:
                             bad = 'accepted call on thread %d delivered %d trace records to the live tracer' % (ti, len(ob.trace))
                         else:
